@@ -8,6 +8,7 @@
 package c09
 
 import (
+	"crypto/ed25519"
 	"unicode/utf8"
 
 	"verifharness/der"
@@ -19,7 +20,6 @@ import (
 const (
 	SANAbsent   = 0 // no subjectAltName extension at all
 	SANPresent  = 1 // extension with the listed DNS / IP / other entries (possibly none: empty SEQUENCE)
-	sanModeMax  = 1
 	cnUTF8      = 0 // UTF8String when the bytes are valid UTF-8, else T61String
 	cnT61       = 1 // T61String (8-bit clean)
 	cnPrintable = 2 // PrintableString when all bytes are printable-string characters, else as cnUTF8
@@ -108,9 +108,7 @@ func (s CertSpec) DER() []byte {
 		exts = append(exts, der.Seq(parts...))
 	}
 
-	pub := k.StdPub.(interface{ Equal(x interface{ any }) bool })
-	_ = pub
-	spki := der.Seq(alg, der.BitString([]byte(k.StdPub.(edPub))))
+	spki := der.Seq(alg, der.BitString([]byte(k.StdPub.(ed25519.PublicKey))))
 
 	fields := [][]byte{
 		der.Ctx(0, true, der.Int64(2)),
